@@ -64,6 +64,14 @@ def run(ctx):
     hs = histories(ctx)
     outs = replay(ctx, hs)
     nsteps = judge(ctx, hs, outs, tbl)
+    # C10, second sentence: the same histories give the same observable graphs whichever store backs them
+    others = [] if ctx.tier == "quick" else ["bolt", "level", "pebble"]
+    sub = hs if len(hs) <= 4000 else [hs[i] for i in sorted(ctx.rng.sample(range(len(hs)), 4000))]
+    for drv in others:
+        o2 = replay(ctx, sub, driver=drv, tag="store_" + drv)
+        nsteps += judge(ctx, sub, o2, tbl, prefix="[%s] " % drv)
+    if others:
+        ctx.notes.append("histories also replayed on %s (%d each)" % (", ".join(others), len(sub)))
     for h in hs[:: max(1, len(hs) // 4)]:
         ctx.sample([x["call"] for x in h])
     ctx.cov.update(evaluations=nsteps, distinct_nontrivial=len(hs), traces_validated_against_impl=len(hs),
